@@ -179,8 +179,12 @@ class SR:
         return f, None
 
     def _bin(self, o, ff, fz):
+        if isinstance(o, (complex, np.complexfloating, SC)):
+            return NotImplemented
         if _is_nan_float(o):
             return float("nan")
+        if isinstance(o, (float, np.floating)) and math.isinf(o) and self.is_const:
+            return ff(float(self.v), float(o))  # constant arithmetic with an infinity stays a python float
         c = self._coerce(o)
         if c is None:
             return NotImplemented
@@ -190,9 +194,13 @@ class SR:
         return SR(fz(term(self.v), term(ov)), _or(self.n, on))
 
     def __add__(self, o):
+        if isinstance(o, (complex, np.complexfloating)):
+            return SC.lift(self) + o
         return self._bin(o, lambda a, b: a + b, lambda a, b: a + b)
 
     def __radd__(self, o):
+        if isinstance(o, (complex, np.complexfloating)):
+            return SC.lift(self) + o
         return self._bin(o, lambda a, b: b + a, lambda a, b: b + a)
 
     def __sub__(self, o):
@@ -202,11 +210,15 @@ class SR:
         return self._bin(o, lambda a, b: b - a, lambda a, b: b - a)
 
     def __mul__(self, o):
+        if isinstance(o, (complex, np.complexfloating)):
+            return SC.lift(self) * o
         if isinstance(self.v, Fraction) and self.v == 0 and self.n is None and isinstance(o, SR) and o.n is None:
             return SR(Fraction(0))
         return self._bin(o, lambda a, b: a * b, lambda a, b: a * b)
 
     def __rmul__(self, o):
+        if isinstance(o, (complex, np.complexfloating)):
+            return SC.lift(self) * o
         return self._bin(o, lambda a, b: b * a, lambda a, b: b * a)
 
     def _div(self, num_v, num_n, den_v, den_n):
@@ -233,6 +245,8 @@ class SR:
     def __rtruediv__(self, o):
         if _is_nan_float(o):
             return float("nan")
+        if isinstance(o, (float, np.floating)) and math.isinf(o) and self.is_const and self.v != 0:
+            return float(o) / float(self.v)
         c = self._coerce(o)
         if c is None:
             return NotImplemented
@@ -519,6 +533,110 @@ class SI:
         return f"SI({self.e})"
 
 
+class SC:
+    """symbolic complex number: pair of SR"""
+
+    __slots__ = ("re", "im")
+
+    def __init__(self, re, im=None):
+        self.re = re if isinstance(re, SR) or _is_nan_float(re) else SR(_frac(re))
+        im = 0 if im is None else im
+        self.im = im if isinstance(im, SR) or _is_nan_float(im) else SR(_frac(im))
+
+    @staticmethod
+    def lift(o):
+        if isinstance(o, SC):
+            return o
+        if isinstance(o, SR):
+            return SC(o, SR(Fraction(0)))
+        if isinstance(o, (complex, np.complexfloating)):
+            return SC(float(o.real), float(o.imag))
+        if isinstance(o, (np.ndarray, list, tuple)):
+            return None
+        if _is_nan_float(o):
+            return SC(float("nan"), float("nan"))
+        f = _frac(o)
+        if f is None:
+            return None
+        return SC(SR(f), SR(Fraction(0)))
+
+    def _b(self, o, f):
+        oc = SC.lift(o)
+        if oc is None:
+            return NotImplemented
+        return f(self, oc)
+
+    def __add__(self, o):
+        return self._b(o, lambda a, b: SC(a.re + b.re, a.im + b.im))
+
+    __radd__ = __add__
+
+    def __sub__(self, o):
+        return self._b(o, lambda a, b: SC(a.re - b.re, a.im - b.im))
+
+    def __rsub__(self, o):
+        return self._b(o, lambda a, b: SC(b.re - a.re, b.im - a.im))
+
+    def __mul__(self, o):
+        return self._b(o, lambda a, b: SC(a.re * b.re - a.im * b.im, a.re * b.im + a.im * b.re))
+
+    __rmul__ = __mul__
+
+    def __truediv__(self, o):
+        if isinstance(o, (SR, int, float, np.floating, np.integer, Fraction)) and not isinstance(o, bool):
+            return SC(self.re / o, self.im / o)
+        oc = SC.lift(o)
+        if oc is None:
+            return NotImplemented
+        den = oc.re * oc.re + oc.im * oc.im
+        num = self * SC(oc.re, -oc.im)
+        return SC(num.re / den, num.im / den)
+
+    def __neg__(self):
+        return SC(-self.re, -self.im)
+
+    def conjugate(self):
+        return SC(self.re, -self.im)
+
+    @property
+    def real(self):
+        return self.re
+
+    @property
+    def imag(self):
+        return self.im
+
+    def exp(self):
+        m = self.re.exp() if isinstance(self.re, SR) and not (self.re.is_const and self.re.v == 0) else 1
+        if _is_nan_float(self.im) or _is_nan_float(self.re):
+            return SC(float("nan"), float("nan"))
+        return SC(m * self.im.cos(), m * self.im.sin())
+
+    def isnan(self):
+        a = True if _is_nan_float(self.re) else (self.re.isnan() if isinstance(self.re, SR) else False)
+        b = True if _is_nan_float(self.im) else (self.im.isnan() if isinstance(self.im, SR) else False)
+        if a is True or b is True:
+            return True
+        if a is False:
+            return b
+        if b is False:
+            return a
+        return a | b
+
+    def angle(self):
+        if _is_nan_float(self.re) or _is_nan_float(self.im):
+            return float("nan")
+        return _CTX.uatan2(self.im, self.re)
+
+    def __abs__(self):
+        return (self.re * self.re + self.im * self.im).sqrt()
+
+    __hash__ = None
+
+    def __repr__(self):
+        return f"SC({self.re}, {self.im})"
+
+
 # --------------------------------------------------------------------------- uninterpreted functions
 _R = z3.RealSort()
 UF = {
@@ -632,6 +750,9 @@ class Ctx:
 
     def _end_run(self):
         self.solver.pop()
+        self.restore_patches()
+
+    def restore_patches(self):
         for m, k, old in reversed(self.patches):
             setattr(m, k, old)
         self.patches = []
@@ -1012,6 +1133,10 @@ class Ctx:
         if self.mode == "sym":
             if isinstance(c, (bool, np.bool_)):
                 return a if c else b
+            if isinstance(a, SC) or isinstance(b, SC):
+                a = SC.lift(a)
+                b = SC.lift(b)
+                return SC(self.ite(c, a.re, b.re), self.ite(c, a.im, b.im))
             an, bn = _nanflag(a), _nanflag(b)
             n = None
             if an is not None or bn is not None or _is_nan_float(a) or _is_nan_float(b):
